@@ -3,6 +3,7 @@ import Gemato.Model.ManifestText
 import Gemato.Model.OpenPGP
 import Gemato.Model.Hash
 import Gemato.Model.VerifyDir
+import Gemato.Model.FindTop
 /-
   Line-protocol driver: one JSON request per input line, one JSON reply per
   output line. Strings travel as arrays of code points.
@@ -261,6 +262,40 @@ def opLookup (req : Json) : Except String Json := do
     | _ => throw .abstain
   pure (Json.mkObj [("model", match r with | .error e => jErr e | .ok j => j)])
 
+/-- find_top: {allow_xdev, levels:[{dev, root, rel, cands:[[name, kind, fdev, text]]}]} -/
+def opFindTop (req : Json) : Except String Json := do
+  let xdev ← (← req.getObjVal? "allow_xdev").getBool?
+  let lv ← (← (← req.getObjVal? "levels").getArr?).toList.mapM fun l => do
+    let cands ← (← (← l.getObjVal? "cands").getArr?).toList.mapM fun c => do
+      let a ← c.getArr?
+      let nm ← getStr a[0]!
+      let kind ← (a[1]!).getStr?
+      let cand : FT.Cand ← match kind with
+        | "absent" => pure FT.Cand.absent
+        | "text" =>
+          let fdev ← (a[2]!).getNat?
+          let t ← getStr a[3]!
+          pure (match loadFile t with
+            | .ok l => FT.Cand.present fdev l.entries
+            | .error .syntax => FT.Cand.broken .syntax
+            | .error .unsignedData => FT.Cand.broken .unsigned
+            | .error (.internal k) => FT.Cand.broken (.internal k))
+        | "corrupt" => pure (FT.Cand.broken .compress)
+        | "isdir" => pure (FT.Cand.broken (.os .EISDIR))
+        | _ => throw s!"bad cand kind {kind}"
+      pure (nm, cand)
+    pure ({ dev := ← (← l.getObjVal? "dev").getNat?, isRoot := ← (← l.getObjVal? "root").getBool?,
+            rel := ← getStr (← l.getObjVal? "rel"), cands := cands } : FT.Level)
+  pure (Json.mkObj [("model", match FT.findTop xdev lv with
+    | .error e => jErr e
+    | .ok none => Json.mkObj [("found", Json.null)]
+    | .ok (some (i, nm)) => Json.mkObj [("found", Json.arr #[jNat i, jStr nm])]),
+    ("spec", match lv with
+      | [] => Json.null
+      | l0 :: _ => match C15spec xdev l0.dev 0 lv with
+        | none => Json.null
+        | some (i, nm) => Json.arr #[jNat i, jStr nm])])
+
 def dispatch (req : Json) : Except String Json := do
   let op ← (← req.getObjVal? "op").getStr?
   match op with
@@ -274,6 +309,7 @@ def dispatch (req : Json) : Except String Json := do
   | "resolve_names" => opResolveNames req
   | "verify_dir" => opVerifyDir req
   | "lookup" => opLookup req
+  | "find_top" => opFindTop req
   | _ => .error s!"unknown op {op}"
 
 end Drv
